@@ -207,6 +207,35 @@ theorem winv_ext {s s' : State} (h : WInv s) (e : Ext s s') (hg : s'.gLabels = s
   · rw [ho]; exact anchorOK_ext e h.ow
   · rw [hr]; exact anchorOK_ext e h.rd
 
+/-- **the pointer log is sound (C13)**: every compression pointer emitted so far points strictly
+    backwards, lies entirely below the cursor, has a target in pointer range that is a recorded
+    label start, and a name is stored at that target -/
+def PtrLogOK (s : State) : Prop :=
+  ∀ e ∈ s.gPtrs, e.target < e.pos ∧ e.pos < s.cursor ∧ 0 < e.target ∧ e.target ≤ Gen.POINTER_MAX ∧
+    e.target ∈ s.gLabels ∧ ∃ ls, StoredAt s e.target ls
+
+theorem ptrLog_ext {s s' : State} (h : PtrLogOK s) (e : Ext s s') (hg : s'.gPtrs = s.gPtrs) :
+    PtrLogOK s' := by
+  intro x hx
+  rw [hg] at hx
+  obtain ⟨h1, h2, h3, h4, h5, ls, h6⟩ := h x hx
+  exact ⟨h1, by have := e.cur; omega, h3, h4, e.glab _ h5, ls, storedAt_ext e h6⟩
+
+/-- a pointer to a stored name, pushed (after some literal labels) at the cursor -/
+theorem ptrLog_literal {s s3 : State} (hl : PtrLogOK s) (e : Ext s s3) {tail : List Label} {pp k : Nat}
+    (htail : StoredAt s pp tail) (hpos : 0 < pp) (hpp : pp ≤ Gen.POINTER_MAX)
+    (hcur : s3.cursor = s.cursor + k + 2) (c : NameCtx) (m : CMode)
+    (hlog : s3.gPtrs = ⟨s.cursor + k, pp, c, m⟩ :: s.gPtrs) : PtrLogOK s3 := by
+  obtain ⟨hG, hlt, _⟩ := nameAt_start htail
+  intro x hx
+  rw [hlog] at hx
+  simp only [List.mem_cons] at hx
+  rcases hx with rfl | hx
+  · exact ⟨by show pp < s.cursor + k; omega, by show s.cursor + k < s3.cursor; omega, hpos, hpp,
+      e.glab _ hG, tail, storedAt_ext e htail⟩
+  · obtain ⟨h1, h2, h3, h4, h5, ls, h6⟩ := hl x hx
+    exact ⟨h1, by have := e.cur; omega, h3, h4, e.glab _ h5, ls, storedAt_ext e h6⟩
+
 /-! ### `try_push` under the invariant -/
 
 theorem tryPush_eq (d : List UInt8) (s : State) (h1 : s.cursor ≤ s.available)
@@ -295,6 +324,8 @@ structure NameSpec (s : State) (n : WName) (r : Out WriterErr (Option Prior) × 
   nopanic : r.1 ≠ .panic
   ok : ∀ p, r.1 = .ok p → WInv r.2 ∧ (∀ q, p = some q → Den r.2 q n) ∧ r.2.qname = s.qname ∧
     r.2.mostRecentOwner = s.mostRecentOwner ∧ r.2.mostRecentNameInRdata = s.mostRecentNameInRdata
+  /-- and the pointer log stays sound -/
+  log : ∀ p, r.1 = .ok p → PtrLogOK s → PtrLogOK r.2
 
 /-- the state after `data` was pushed -/
 def pushed (s : State) (d : List UInt8) : State :=
@@ -322,10 +353,14 @@ theorem writeUncompressedName_spec (n : WName) (s : State) (h : WInv s) (hn : n.
     NameSpec s n (writeUncompressedName n s) := by
   rw [writeUncompressedName_eq n s h.cur_av h.av_size]
   by_cases hnfit : ¬ n.wire.length ≤ s.available - s.cursor
-  · rw [if_neg hnfit]; exact ⟨by simp, fun p hp => by cases hp⟩
+  · rw [if_neg hnfit]; exact ⟨by simp, (fun p hp => by cases hp), fun p hp => by cases hp⟩
   have hfit : n.wire.length ≤ s.available - s.cursor := Decidable.of_not_not hnfit
   rw [if_pos hfit]
-  refine ⟨by simp, fun p hp => ?_⟩
+  refine ⟨by simp, fun p hp => ?main, fun p hp hl => ?lg⟩
+  case lg =>
+    have := frame_writeUncompressedName n s
+    rw [writeUncompressedName_eq n s h.cur_av h.av_size, if_pos hfit] at this
+    exact ptrLog_ext hl this rfl
   simp only [Out.ok.injEq] at hp
   -- the new state
   generalize hs' : withLabels (pushed s n.wire)
@@ -524,7 +559,9 @@ theorem writeCompressedUnhintedName_spec (n : WName) (s : State) (h : WInv s) (h
       simp only [hk0, if_true, M.bind_apply, pushPointer_eq _ s hav hsz] at e ⊢
       by_cases hfit : 2 ≤ s.available - s.cursor
       · simp only [hfit, if_true, M.pure_apply] at e ⊢
-        refine ⟨by simp, fun p hp => ?_⟩
+        refine ⟨by simp, fun p hp => ?main, fun p hp hl => ?lg⟩
+        case lg =>
+          exact ptrLog_literal (k := 0) hl e hst hpos hmax (by simp [pushed]; rfl) s.gCtx s.mode (by simp [pushed])
         simp only [Out.ok.injEq] at hp
         obtain ⟨hw, _⟩ := literal_ptr_state (pre := []) h e (fun _ hl => by cases hl) hst hmax'
           (by simpa [pushed] using bytesAt_writeAt s.octets s.cursor (ptrBytes m.priorPointer)
@@ -537,7 +574,7 @@ theorem writeCompressedUnhintedName_spec (n : WName) (s : State) (h : WInv s) (h
         rw [hk0] at hmatch
         exact ⟨hpos, hmax, rfl, ls, storedAt_ext e hst, labelsMatch_std (by simpa using hmatch)⟩
       · simp only [hfit, if_false] at e ⊢
-        exact ⟨by simp, fun p hp => by cases hp⟩
+        exact ⟨by simp, (fun p hp => by cases hp), fun p hp => by cases hp⟩
     · -- a literal prefix, then a pointer
       have hwt := wireTo_lt n m.startColumn hk
       simp only [hk0, if_false, M.bind_apply, tryPush_eq' _ s hav hsz] at e ⊢
@@ -555,7 +592,11 @@ theorem writeCompressedUnhintedName_spec (n : WName) (s : State) (h : WInv s) (h
         · have hfit2' : s.cursor + (n.wireTo m.startColumn).length + 2 ≤ s.available := by
             have := hfit2; rw [a2, c2] at this; omega
           simp only [hfit2, if_true, M.pure_apply] at e ⊢
-          refine ⟨by simp, fun p hp => ?_⟩
+          refine ⟨by simp, fun p hp => ?main2, fun p hp hl => ?lg2⟩
+          case lg2 =>
+            have hgp : s2.gPtrs = s.gPtrs := by rw [← hs2]; rfl
+            exact ptrLog_literal (k := (n.wireTo m.startColumn).length) hl e hst hpos hmax
+              (by simp only [pushed, c2]; rfl) s2.gCtx s2.mode (by simp only [pushed, c2, hgp])
           simp only [Out.ok.injEq] at hp
           have hlen1 : (n.wireTo m.startColumn).length = encLen (List.take m.startColumn n.labels) := by
             rw [hwt]; rfl
@@ -592,9 +633,9 @@ theorem writeCompressedUnhintedName_spec (n : WName) (s : State) (h : WInv s) (h
             conv => lhs; arg 2; rw [← List.take_append_drop m.startColumn n.labels]
             exact labelsMatch_append (labelsMatch_refl _ _) (labelsMatch_std hmatch)
         · simp only [hfit2, if_false] at e ⊢
-          exact ⟨by simp, fun p hp => by cases hp⟩
+          exact ⟨by simp, (fun p hp => by cases hp), fun p hp => by cases hp⟩
       · simp only [hfit1, if_false] at e ⊢
-        exact ⟨by simp, fun p hp => by cases hp⟩
+        exact ⟨by simp, (fun p hp => by cases hp), fun p hp => by cases hp⟩
 
 
 theorem writeUnhintedName_spec (n : WName) (s : State) (h : WInv s) (hn : n.WF) :
@@ -613,7 +654,10 @@ theorem pushHinted_spec (q : Prior) (n : WName) (s : State) (h : WInv s) (hd : D
   simp only [M.bind_apply, pushPointer_eq _ s hav hsz] at e ⊢
   by_cases hfit : 2 ≤ s.available - s.cursor
   · simp only [hfit, if_true, M.pure_apply] at e ⊢
-    refine ⟨by simp, fun p hp => ?_⟩
+    refine ⟨by simp, fun p hp => ?main, fun p hp hl => ?lg⟩
+    case lg =>
+      obtain ⟨hpos, hmax, _, ls, hst, _⟩ := hd
+      exact ptrLog_literal (k := 0) hl e hst hpos hmax (by simp [pushed]; rfl) s.gCtx s.mode (by simp [pushed])
     simp only [Out.ok.injEq] at hp
     have hd' := hd
     obtain ⟨_, hmax, _, ls, hst, _⟩ := hd'
@@ -627,7 +671,7 @@ theorem pushHinted_spec (q : Prior) (n : WName) (s : State) (h : WInv s) (hd : D
     cases hq'
     exact den_ext e hd
   · simp only [hfit, if_false] at e ⊢
-    exact ⟨by simp, fun p hp => by cases hp⟩
+    exact ⟨by simp, (fun p hp => by cases hp), fun p hp => by cases hp⟩
 
 /-- the hint that accompanies a name is valid: the anchor it resolves to (if any) denotes that name -/
 def HintOK (s : State) : Hint → WName → Prop
